@@ -617,6 +617,98 @@ def _subst_atom(a, mp, names):
     return rebuild_atom(a, lambda q: _subst(q, mp, names))
 
 
+def reduce_rcp(x, depth=0):
+    """canonical form modulo  q * rcp(q) = 1 : for every reciprocal atom R = rcp(q), q = c1 m1 + ... , every monomial divisible by
+    m_lead * R is rewritten with  m_lead * R = (1 - (q - c_lead m_lead) R) / c_lead  (m_lead: the largest non-constant monomial
+    of q).  n*rcp(n+r) and 1 - r*rcp(n+r) thereby get the same normal form.  Applied inside log / max / ite / binder bodies too.
+    (q != 0 is the definedness side condition of the rcp atom, recorded where it was created.)"""
+    if isinstance(x, Cond):
+        return rebuild_cond(x, lambda q: reduce_rcp(q, depth + 1)) if depth < 6 else x
+    if not isinstance(x, Poly) or depth > 6:
+        return x
+    # inside the atoms first
+    acc = ZERO
+    for m, c in x.terms:
+        t = Poly.const(c)
+        for a, pw in m:
+            if a.kind in ("sym", "bv") or not any(isinstance(q, (Poly, Cond)) for q in a.args):
+                r = Poly.atom(a, 1)
+            elif a.kind in BINDERS:
+                v, bound, body = open_binder(a)
+                nb = reduce_rcp(bound, depth + 1) if bound is not None else None
+                nbody = reduce_rcp(body, depth + 1)
+                r = Poly.atom(a, 1) if (nbody is body and nb is bound) else close_binder(a.kind, v, nb, nbody, a.sort)
+            elif a.kind == "rcp":
+                na = reduce_rcp(a.args[0], depth + 1)
+                r = Poly.atom(a, 1) if na is a.args[0] or equal(na, a.args[0]) else recip(na)
+            elif a.kind == "log":
+                # log of a rational expression: put it over its denominators first, log(N * rcp(q)^k) = log N - k log q
+                A_ = reduce_rcp(a.args[0], depth + 1)
+                r = ZERO
+                for _i in range(4):
+                    rs = sorted((b for b in A_.atoms() if b.kind == "rcp" and any(dict(m).get(b, 0) > 0 for m, _c in A_.terms)), key=lambda b: b.key)
+                    if not rs:
+                        break
+                    R_ = rs[0]
+                    q_ = P(R_.args[0])
+                    k_ = max(dict(m).get(R_, 0) for m, _c in A_.terms)
+                    num = ZERO
+                    for m, c in A_.terms:
+                        d = dict(m)
+                        j_ = d.pop(R_, 0)
+                        if j_ < 0:
+                            num = None
+                            break
+                        rest = Poly.const(c)
+                        for b, pw2 in d.items():
+                            rest = rest * Poly.atom(b, pw2)
+                        num = num + rest * (q_ ** (k_ - j_))
+                    if num is None:
+                        break
+                    r = r - mk_log(q_) * k_
+                    A_ = num
+                r = r + mk_log(A_)
+            else:
+                try:
+                    r = rebuild_atom(a, lambda q: reduce_rcp(q, depth + 1))
+                except TypeError:
+                    r = Poly.atom(a, 1)
+            t = t * (r ** pw if pw != 1 else r)
+        acc = acc + t
+    p = acc
+    for _ in range(12):
+        changed = False
+        for R in sorted((a for a in p.atoms() if a.kind == "rcp"), key=lambda a: a.key):
+            q = P(R.args[0])
+            cand = [(m, c) for m, c in q.terms if m and all(pw > 0 for _a, pw in m)]
+            if len(q.terms) < 2 or not cand:
+                continue
+            # prefer a monomial that varies with an enclosing index (bound variable / array element) over a free symbol: a free
+            # symbol factor is pulled out of sums by linearity and would hide the match
+            lead_m, lead_c = max(cand, key=lambda mc: (any(a.hasbv for a, _p in mc[0]), any(a.kind == "app" for a, _p in mc[0]), _mono_key(mc[0])))
+            new, hit = ZERO, False
+            repl = (ONE - (q - Poly({lead_m: lead_c})) * Poly.atom(R, 1)) * Poly.const(Fraction(1) / lead_c)
+            for m, c in p.terms:
+                d = dict(m)
+                if d.get(R, 0) >= 1 and all(d.get(a, 0) >= pw for a, pw in lead_m):
+                    d[R] -= 1
+                    for a, pw in lead_m:
+                        d[a] -= pw
+                    rest = Poly.const(c)
+                    for a, pw in d.items():
+                        if pw:
+                            rest = rest * Poly.atom(a, pw)
+                    new = new + rest * repl
+                    hit = True
+                else:
+                    new = new + Poly({m: c})
+            if hit:
+                p, changed = new, True
+        if not changed:
+            break
+    return p
+
+
 def map_apps(x, name, f):
     """replace every application  name[args]  in x (also under binders) by f(*args)"""
     if isinstance(x, Poly):
@@ -1336,6 +1428,9 @@ def mk_ite(c, a, b):
             return mk_min(a, b)
     if c.kind == "not":
         return mk_ite(c.args[0], b, a)
+    # ite(x == y, x, y) = y ; ite(x != y, x, y) = x   (the branches agree where the condition selects the other one)
+    if c.kind == "cmp" and c.args[0] in ("==0", "!=0") and ((a - b) == c.args[1] or (b - a) == c.args[1]):
+        return b if c.args[0] == "==0" else a
     return Poly.atom(Atom("ite", (c, a, b)))
 
 
